@@ -21,9 +21,11 @@ def main():
     round3 = "--round3" in args
     round4 = "--round4" in args
     round5 = "--round5" in args     # properties that had no round 4: /tmp/mut5, filed as _m7/_m8 as well
-    args = [a for a in args if a not in ("--round2", "--round3", "--round4", "--round5")]
+    round6 = "--round6" in args     # /tmp/mut6; filed under the next free numbers, only when confirmed
+    args = [a for a in args if a not in ("--round2", "--round3", "--round4", "--round5", "--round6")]
     for pid in args:
-        out = Path(f"/tmp/mut5/out_{pid}" if round5 else f"/tmp/mut4/out_{pid}" if round4 else f"/tmp/mut3/out_{pid}" if round3 else (f"/tmp/mut2/out_{pid}" if round2 else f"/tmp/mut/out_{pid}"))
+        base6 = max([int(d.name.split("_m")[1]) for d in Path("/verif/seeded").glob(f"{pid}_m*")] + [0])
+        out = Path(f"/tmp/mut6/out_{pid}") if round6 else Path(f"/tmp/mut5/out_{pid}" if round5 else f"/tmp/mut4/out_{pid}" if round4 else f"/tmp/mut3/out_{pid}" if round3 else (f"/tmp/mut2/out_{pid}" if round2 else f"/tmp/mut/out_{pid}"))
         for k in (1, 2, 3):
             diff = out / f"mutant{k}.diff"
             if not diff.exists():
@@ -43,6 +45,12 @@ def main():
                                  what_i_ran=[f"git worktree add {wt} HEAD", f"demo on clean -> {rc_clean}", "git apply patch.diff",
                                              f"demo on mutant -> {rc_mut}", "pytest full suite (3 baseline-failing tests deselected)"]))
                 dst = Path(f"/verif/seeded/{pid}_m{k + 6 if (round4 or round5) else k + 4 if round3 else (k + 2 if round2 else k)}")
+                if round6:
+                    if not confirmed:
+                        print(pid, k, "NOT CONFIRMED (not filed)", rc_clean, rc_apply, rc_mut, t_out.strip().splitlines()[-1:])
+                        continue
+                    base6 += 1
+                    dst = Path(f"/verif/seeded/{pid}_m{base6}")
                 dst.mkdir(parents=True, exist_ok=True)
                 shutil.copy(diff, dst / "patch.diff")
                 shutil.copy(out / f"demo{k}.py", dst / "demo.py")
